@@ -1673,13 +1673,17 @@ class PyCdlib:
 
                 if self.isohybrid_mbr is not None:
                     if enc.platform_id == 0xef:
+                        # A hybrid made without EFI (or Mac) support has no
+                        # partition for the image; it is only an El Torito one.
                         if num_seen_efi == 0:
-                            self.isohybrid_mbr.update_efi(current_extent,
-                                                          enc.entry.sector_count,
-                                                          self.pvd.space_size * self.logical_block_size)
+                            if self.isohybrid_mbr.efi:
+                                self.isohybrid_mbr.update_efi(current_extent,
+                                                              enc.entry.sector_count,
+                                                              self.pvd.space_size * self.logical_block_size)
                         elif num_seen_efi == 1:
-                            self.isohybrid_mbr.update_mac(current_extent,
-                                                          enc.entry.sector_count)
+                            if self.isohybrid_mbr.mac:
+                                self.isohybrid_mbr.update_mac(current_extent,
+                                                              enc.entry.sector_count)
                         else:
                             raise pycdlibexception.PyCdlibInternalError('Only expected two EFI sections')
                         num_seen_efi += 1
